@@ -569,7 +569,7 @@ def _prefix_facts(prefix, kind, ident):
     return methods, subs, earlier, earlier_fp
 
 
-def search_witness(breaks, limit=4):
+def search_witness(breaks, limit=6):
     """The state machine no longer describes the implementation at some step.  Look for a program that shows it: take the
     object (router / program) of the diverging step, compile it once more at a few configurations (a) at the end of the
     session prefix that led there and (b) after the same definitions with no compilation at all, each in a fresh interpreter."""
@@ -608,6 +608,24 @@ def search_witness(breaks, limit=4):
             b = {"recover": True, "steps": defs + [last]}
             jobs += [(a, br.get("hashseed", 0)), (b, 0)]
             meta.append((br, tgt, cfg, a, b))
+    # directed scenarios for the kind of step that diverged: the same object compiled unsuccessfully, then successfully
+    if breaks:
+        br = breaks[0]
+        cg = G.Gen(random.Random(br.get("step", 0)), handle_base=900000)
+        cg.next_prog = cg.next_router = 900000
+        for cls in ["router_fail_then_ok"] * 3 + ["prog_fail_then_ok"] * 2:
+            st = cg.failing(cls)
+            defs = [x for x in st if x["k"] in ("defsub", "router_new", "router_method", "build")]
+            comp = [x for x in st if x["k"] in ("compile", "router_compile")]
+            fail = [x for x in comp if x["version"] < 7][:1]
+            good = [x for x in comp if x["version"] == 7][:1]
+            if not fail or not good:
+                continue
+            a = {"recover": True, "steps": defs + fail + good}
+            b = {"recover": True, "steps": defs + good}
+            jobs += [(a, 0), (b, 0)]
+            tgt = ("r", good[0]["r"]) if "r" in good[0] else ("p", good[0]["p"])
+            meta.append((dict(br, kind="directed " + cls), tgt, {"version": 7}, a, b))
     res = run_many(jobs)
     out = []
     for k, (br, tgt, cfg, a, b) in enumerate(meta):
@@ -694,10 +712,14 @@ def main(argv):
     ck.coverage["frame_pointer_context_semantics_observed"] = mode
     ck.coverage["known_finding_replays"] = still
 
+    t_phase = {"proofs_and_replays": round(time.time() - ck.t0, 1)}
     # ---------------- correspondence 1: the id-usage functions, in process ----------------
+    _t = time.time()
     id_mism = check_id_usage(ck, model, thorough)
     ck.coverage["id_usage_mismatches"] = len(id_mism)
 
+    t_phase["id_usage"] = round(time.time() - _t, 1)
+    _t = time.time()
     # ---------------- implementation side (a): directed programs under several hash seeds ----------------
     probe_seeds = [0, 1, 2, 3, 7, rng.randrange(8, 2**32 - 1)] + ([5, 11, 42, rng.randrange(8, 2**32 - 1), rng.randrange(8, 2**32 - 1)] if thorough else [])
     probe_found, probe_n = hashseed_probe(ck, probe_seeds)
@@ -706,6 +728,8 @@ def main(argv):
         ck.violation("program %s (harness/c11_probe.py, variant %d) compiles to different TEAL under PYTHONHASHSEED=%s and %s" % (
             f["program"], f["variant_seed"], f["hashseed_a"], f["hashseed_b"]), f)
 
+    t_phase["hashseed_probe"] = round(time.time() - _t, 1)
+    _t = time.time()
     # ---------------- correspondence 2 + implementation-side check (b): sessions ----------------
     subjects, _ = build_corpus(rng, thorough)
     by_sid = {s["sid"]: s for s in subjects}
@@ -720,7 +744,7 @@ def main(argv):
     for hs in seeds:
         sessions.append(make_session("repeats-no-history", idx, subjects, random.Random(12345), hs, history=False))
         idx += 1
-    per_seed = 8 if thorough else 3
+    per_seed = 8 if thorough else 2
     for hs in seeds:
         for _ in range(per_seed):
             sessions.append(make_session("history", idx, subjects, random.Random(rng.getrandbits(64)), hs))
@@ -733,6 +757,8 @@ def main(argv):
                                "hash_seeds": seeds, "subjects": len(subjects),
                                "subject_flavours": sorted(set(s["flavour"] for s in subjects))}
 
+    t_phase["sessions_run"] = round(time.time() - _t, 1)
+    _t = time.time()
     # -- state machine vs observed counters / marker
     corr_breaks = []
     steps_compared = 0
@@ -770,6 +796,8 @@ def main(argv):
     ck.coverage["history_activity_histogram"] = hist_hist
     ck.coverage["marker_observed_set_after_a_step"] = stuck_seen
 
+    t_phase["state_machine_compare"] = round(time.time() - _t, 1)
+    ck.coverage["phase_seconds"] = t_phase
     # -- TEAL identity
     ref = {}          # (key, tag) -> (value, session index, step index)
     diffs = []
